@@ -66,6 +66,7 @@ type FnGen struct {
 	declaredEvents map[string]bool
 	notes    map[string]bool
 	W        []modEntry
+	GW       []modEntry // declared ghost-field (permission) writes
 	modAll   bool
 	allocEntry Term
 	compSorts  map[string]Sort
@@ -121,6 +122,7 @@ func (fg *FnGen) reset(pass int) {
 		fg.notes = map[string]bool{}
 	}
 	fg.W = nil
+	fg.GW = nil
 	fg.havocAllSeen = false
 	fg.rangeIters = map[ssa.Value]*rangeIter{}
 	fg.localAllocs = nil
@@ -308,7 +310,14 @@ func (fg *FnGen) havocAll(why string) {
 }
 
 func isNonHeapComp(comp string) bool {
-	return strings.HasPrefix(comp, "held:") || strings.HasPrefix(comp, "rheld:") || strings.HasPrefix(comp, "ghost:") || strings.HasPrefix(comp, "cnt:")
+	return strings.HasPrefix(comp, "held:") || strings.HasPrefix(comp, "rheld:") || strings.HasPrefix(comp, "ghost:") || strings.HasPrefix(comp, "cnt:") ||
+		strings.HasPrefix(comp, "obs:") || isGhostFieldComp(comp)
+}
+
+// ghost fields (decl ghostfield T.name type) live in components H:<T>.$name: permissions/ownership that only
+// the declaring contracts can move; unknown code cannot touch them.
+func isGhostFieldComp(comp string) bool {
+	return strings.HasPrefix(comp, "H:") && strings.Contains(comp, ".$")
 }
 
 // havocCounter: an event counter changed by an unknown amount; counters only grow.
@@ -679,6 +688,7 @@ func (fg *FnGen) store(l *Loc, v *Val, pos token.Pos) {
 	if len(ls) != len(v.L) {
 		panic(unsupported(fmt.Sprintf("store layout mismatch %s vs %s", l.T, v.T)))
 	}
+	fg.guardedStore(l, pos)
 	for i, leaf := range ls {
 		comp := fg.compName(l, leaf)
 		fg.frameCheck(comp, l, pos)
@@ -877,7 +887,9 @@ func (fg *FnGen) run() (err error) {
 		for _, gv := range c.Ghosts {
 			comp := "ghost:" + gv.Name
 			fg.ghosts[gv.Name] = comp
-			if T := fg.g.resolveTypeString(gv.Type, fnPkgPath(fg.fn)); T != nil {
+			if gv.Type == "intarray" {
+				fg.ghostTypes[gv.Name] = ghostIntArray
+			} else if T := fg.g.resolveTypeString(gv.Type, fnPkgPath(fg.fn)); T != nil {
 				fg.ghostTypes[gv.Name] = T
 			}
 			env := fg.env(fg.cur, fg.entry, nil)
@@ -916,6 +928,10 @@ func (fg *FnGen) run() (err error) {
 			if !fg.modAll {
 				env := fg.env(fg.cur, fg.entry, nil)
 				fg.W = append(fg.W, fg.evalMod(m, env)...)
+			}
+			if modMentionsNonHeap(m, c, fg) && !strings.HasPrefix(m.cstr(), "held(") {
+				env := fg.env(fg.cur, fg.entry, nil)
+				fg.GW = append(fg.GW, fg.evalMod(m, env)...)
 			}
 		}
 		fg.entry = fg.cur.clone()
